@@ -320,7 +320,7 @@ zgsrfs(trans_t trans, SuperMatrix *A, SuperMatrix *L, SuperMatrix *U,
 		if (rwork[i] > safe2) {
 		    s = SUPERLU_MAX( s, z_abs1(&work[i]) / rwork[i] );
                 } else if ( rwork[i] != 0.0 ) {
-		    s = SUPERLU_MAX( s, (z_abs1(&work[i]) + safe1) / rwork[i] );
+		    s = SUPERLU_MAX( s, (z_abs1(&work[i]) + safe1) / (rwork[i] + safe1) );
                 }
                 /* If rwork[i] is exactly 0.0, then we know the true 
                    residual also must be exactly 0.0. */
